@@ -49,12 +49,66 @@ theorem SlotsMono.erase {a b : State} (h : SlotsMono a b) (x : Nat) : SlotsMono 
   unfold unbindFun; split <;> simp
 @[simp] theorem allocRep_slots (R s) : (allocRep R s).slots = s.slots := rfl
 @[simp] theorem allocRep_nextRep (R s) : (allocRep R s).nextRep = s.nextRep + 1 := rfl
-@[simp] theorem newRep_slots (f s) : (newRep f s).slots = s.slots := by
-  unfold newRep; simp
-@[simp] theorem cloneRep_slots (r s) : (cloneRep r s).slots = s.slots := by
-  unfold cloneRep; split
+@[simp] theorem bindFunX_slots (e r f s) : (bindFunX e r f s).slots = s.slots := by
+  unfold bindFunX; split <;> simp
+@[simp] theorem nestFinish_slots (n fid dd j s) : (nestFinish n fid dd j s).slots = s.slots := by
+  unfold nestFinish; simp
+
+theorem ite_slots (c : Prop) [Decidable c] (A B : State) (w : Nat) (o : Option SVar)
+    (hA : A.slots w = o) (hB : B.slots w = o) : (if c then A else B).slots w = o := by
+  split <;> assumption
+
+/-- a clone leaves the program's variables alone (it creates anonymous ones for slots bound by value) -/
+theorem cloneRepD_slots (e : Bool) : ∀ (d r : Nat) (s : State) (w : Nat), w < anonBase →
+    (cloneRepD e d r s).slots w = s.slots w := by
+  intro d
+  induction d with
+  | zero =>
+    intro r s w _
+    rw [cloneRepD]
+    split
+    · rfl
+    · split
+      · rfl
+      · rfl
+      · simp
+  | succ d' ih =>
+    intro r s w hw
+    rw [cloneRepD]
+    split
+    · rfl
+    · split
+      · rfl
+      · have hne : w ≠ anonBase + s.nextRep := by omega
+        simp only [nestFinish_slots]
+        split
+        · simp [State.setSlot, hne]
+        · split
+          · simp [State.setSlot, hne]
+          · apply ite_slots
+            · simp [State.setSlot, hne]
+            · simp only [State.setSlot, hne, if_false]
+              rw [ih _ _ w hw]; rfl
+      · simp
+
+theorem cloneRep_slots (r : Nat) (s : State) (w : Nat) (hw : w < anonBase) :
+    (cloneRep r s).slots w = s.slots w := cloneRepD_slots _ _ r s w hw
+
+theorem newRep_slots (f : Fun) (s : State) (w : Nat) (hw : w < anonBase) :
+    (newRep f s).slots w = s.slots w := by
+  unfold newRep
+  split
+  · have hne : w ≠ anonBase + s.nextRep := by omega
+    simp only []
+    split
+    · simp [State.setSlot, hne]
+    · split
+      · simp [State.setSlot, hne]
+      · apply ite_slots
+        · simp [State.setSlot, hne]
+        · simp only [nestFinish_slots, State.setSlot, hne, if_false]
+          rw [cloneRepD_slots _ _ _ _ w hw]; rfl
   · simp
-  · split <;> simp
 @[simp] theorem nullConns_slots (cs s) : (nullConns cs s).slots = s.slots := rfl
 @[simp] theorem weakNotify_slots (r s) : (weakNotify r s).slots = s.slots := by
   unfold weakNotify; split <;> simp
@@ -245,6 +299,14 @@ theorem Blk.alive_of_check {s : State} {v : Nat} (h : deadS s v = false) : ∃ V
   | none => simp [hv] at h
   | some V => exact ⟨V, rfl⟩
 
+theorem Blk.check_split {s : State} {op : Op} (h : check s op = none) : op.named = true ∧ check0 s op = none := by
+  unfold check at h
+  by_cases hn : op.named = true
+  · rw [if_pos hn] at h; exact ⟨hn, h⟩
+  · rw [if_neg hn] at h; cases h
+
+theorem Blk.named2 {a b : Nat} (h : (a < anonBase ∧ b < anonBase)) : a < anonBase ∧ b < anonBase := h
+
 /-- the common core: setting the flag of a live variable -/
 theorem Blk.setBlocked_spec (s : State) (v : Nat) (b : Bool) (V : SVar) (hV : s.slots v = some V) :
     (s.modSlot v fun V => { V with blocked := b }).slots v = some { V with blocked := b } ∧
@@ -268,7 +330,7 @@ theorem block_returns_previous_lem (s : State) (v : Nat) (b : Bool) (h : check s
     (apply (.blockS v b) s).reps = s.reps ∧
     (apply (.blockS v b) s).trks = s.trks ∧
     (apply (.blockS v b) s).conns = s.conns := by
-  obtain ⟨V, hV⟩ := alive_of_check (s := s) (v := v) (by simpa [check] using h)
+  obtain ⟨V, hV⟩ := alive_of_check (s := s) (v := v) (by simpa [check0] using (check_split h).2)
   exact ⟨rfl, (setBlocked_spec s v b V hV).2⟩
 
 example : check exA (.blockS 1 false) = none ∧ blockedVar exA 1 = true ∧
@@ -282,7 +344,7 @@ theorem unblock_returns_previous_lem (s : State) (v : Nat) (h : check s (.unbloc
     (apply (.unblockS v) s).reps = s.reps ∧
     (apply (.unblockS v) s).trks = s.trks ∧
     (apply (.unblockS v) s).conns = s.conns := by
-  obtain ⟨V, hV⟩ := alive_of_check (s := s) (v := v) (by simpa [check] using h)
+  obtain ⟨V, hV⟩ := alive_of_check (s := s) (v := v) (by simpa [check0] using (check_split h).2)
   exact ⟨rfl, (setBlocked_spec s v false V hV).2⟩
 
 example : check exA (.unblockS 1) = none ∧ blockedVar exA 1 = true ∧
@@ -375,13 +437,15 @@ theorem cpS_blocked_lem (s : State) (j i : Nat) (X : SVar) (hX : s.slots i = som
     blockedVar (apply (.cpS j i) s) j =
       (if (repOf s i).isSome && emptyVar s i then false else X.blocked) := by
   have hij : i ≠ j := fun h => hji h.symm
+  have hnm : j < anonBase ∧ i < anonBase := by simpa [Op.named, Op.names] using (check_split _h).1
   simp only [apply, hX, repOf]
   cases hr : X.rep with
   | none => simp [blockedVar, setSlot_slots, hij, hX]
   | some r =>
+    have hcl := cloneRep_slots r s i hnm.2
     by_cases he : emptyVar s i = true
     · simp [he, blockedVar, setSlot_slots, hij, hX]
-    · simp [he, blockedVar, setSlot_slots, hij, hX]
+    · simp [he, blockedVar, setSlot_slots, hij, hX, hcl]
 
 -- a blocked, non-empty source: the flag is copied
 example : exA.slots 1 = some ⟨some 0, true⟩ ∧ check exA (.cpS 4 1) = none ∧ emptyVar exA 1 = false ∧
@@ -409,12 +473,14 @@ theorem mvS_blocked_lem (s : State) (j i : Nat) (X : SVar) (hX : s.slots i = som
     have hr' : X.rep = none := by simpa [repOf, hX] using hr
     simp [apply, hX, hr', setSlot_slots, hij]
   · intro hp
+    have hnm : j < anonBase ∧ i < anonBase := by simpa [Op.named, Op.names] using (check_split _h).1
     cases hr : X.rep with
     | none => simp [hasParent, repObj, repOf, hX, hr] at hp
     | some r =>
+      have hcl := cloneRep_slots r s i hnm.2
       by_cases he : emptyVar s i = true
       · simp [apply, hX, hr, hp, he, blockedVar, setSlot_slots, hij]
-      · simp [apply, hX, hr, hp, he, blockedVar, setSlot_slots, hij]
+      · simp [apply, hX, hr, hp, he, blockedVar, setSlot_slots, hij, hcl]
   · intro r hr hp
     have hr' : X.rep = some r := by simpa [repOf, hX] using hr
     simp [apply, hX, hr', hp, setSlot_slots, hij]
@@ -483,7 +549,7 @@ theorem asgS_blocked_lem (s : State) (d x : Nat) (D X : SVar) (hD : s.slots d = 
     -- (c) otherwise: the flag is copied, the source is untouched
     (repOf s d ≠ repOf s x → emptyVar s x = false →
       (∀ D', (apply (.asgS d x) s).slots d = some D' → D'.blocked = X.blocked ∧ D'.rep = some s.nextRep) ∧
-      (∀ w W', w ≠ d → (apply (.asgS d x) s).slots w = some W' → s.slots w = some W') ∧
+      (∀ w W', w ≠ d → w < anonBase → (apply (.asgS d x) s).slots w = some W' → s.slots w = some W') ∧
       (∀ X', x ≠ d → (apply (.asgS d x) s).slots x = some X' → X' = X)) := by
   have hrx : repOf s x = X.rep := repOf_eq hX
   refine ⟨?_, ?_, ?_⟩
@@ -503,20 +569,21 @@ theorem asgS_blocked_lem (s : State) (d x : Nat) (D X : SVar) (hD : s.slots d = 
     obtain ⟨r, hXr⟩ := rep_of_nonempty hX he
     rw [hXr] at this
     simp only [apply, hX, this, he, Bool.false_eq_true, if_false, hXr]
-    have hoth : ∀ w W', w ≠ d →
+    have hnm : d < anonBase ∧ x < anonBase := by simpa [Op.named, Op.names] using (check_split _h).1
+    have hoth : ∀ w W', w ≠ d → w < anonBase →
         (exchangeRep d s.nextRep ((cloneRep r s).modSlot d fun D => { D with blocked := X.blocked })).slots w
           = some W' → s.slots w = some W' := by
-      intro w W' hw h
+      intro w W' hw hwn h
       obtain ⟨W, h1, _, h3, _⟩ := exchangeRep_slots _ _ _ _ _ h
-      rw [modSlot_slots, if_neg hw] at h1
-      rw [h3 hw]; simpa using h1
+      rw [modSlot_slots, if_neg hw, cloneRep_slots r s w hwn] at h1
+      rw [h3 hw]; exact h1
     refine ⟨fun D' hD' => ?_, hoth, fun X' hxd h => ?_⟩
     · obtain ⟨W, h1, h2, _, h4⟩ := exchangeRep_slots _ _ _ _ _ hD'
       rw [modSlot_slots, if_pos rfl, Option.map_eq_some_iff] at h1
       obtain ⟨D1, _, hD1'⟩ := h1
       subst hD1'
       exact ⟨h2, h4 rfl⟩
-    · have := hoth x X' hxd h
+    · have := hoth x X' hxd hnm.2 h
       rw [hX] at this; cases this; rfl
 
 -- (a)
@@ -547,7 +614,7 @@ theorem masgS_blocked_lem (s : State) (d x : Nat) (D X : SVar) (hD : s.slots d =
     -- (c1) clone branch: the flag is copied, the source keeps representation and flag
     (repOf s d ≠ repOf s x → emptyVar s x = false → hasParent s x = true →
       (∀ D', (apply (.masgS d x) s).slots d = some D' → D'.blocked = X.blocked ∧ D'.rep = some s.nextRep) ∧
-      (∀ w W', w ≠ d → (apply (.masgS d x) s).slots w = some W' → s.slots w = some W') ∧
+      (∀ w W', w ≠ d → w < anonBase → (apply (.masgS d x) s).slots w = some W' → s.slots w = some W') ∧
       (∀ X', x ≠ d → (apply (.masgS d x) s).slots x = some X' → X' = X)) ∧
     -- (c2) really-move branch: flag and representation move, the source becomes the default slot
     (repOf s d ≠ repOf s x → emptyVar s x = false → hasParent s x = false →
@@ -573,20 +640,23 @@ theorem masgS_blocked_lem (s : State) (d x : Nat) (D X : SVar) (hD : s.slots d =
     obtain ⟨r, hXr⟩ := rep_of_nonempty hX he
     rw [hXr] at this
     simp only [apply, hX, this, he, hp, Bool.false_eq_true, if_false, if_true, hXr]
-    have hoth : ∀ w W', w ≠ d →
+    have hnm : d < anonBase ∧ x < anonBase := by simpa [Op.named, Op.names] using (check_split _h).1
+    have hoth : ∀ w W', w ≠ d → w < anonBase →
         (exchangeRep d s.nextRep
           (cloneRep r (s.modSlot d fun D => { D with blocked := X.blocked }))).slots w = some W' →
         s.slots w = some W' := by
-      intro w W' hw h
+      intro w W' hw hwn h
       obtain ⟨W, h1, _, h3, _⟩ := exchangeRep_slots _ _ _ _ _ h
       rw [h3 hw]
+      rw [cloneRep_slots _ _ w hwn] at h1
       simpa [modSlot_slots, hw] using h1
     refine ⟨fun D' hD' => ?_, hoth, fun X' hxd h => ?_⟩
     · obtain ⟨W, h1, h2, _, h4⟩ := exchangeRep_slots _ _ _ _ _ hD'
-      simp only [cloneRep_slots, modSlot_slots, if_true, hD, Option.map_some, Option.some.injEq] at h1
+      rw [cloneRep_slots _ _ d hnm.1] at h1
+      simp only [modSlot_slots, if_true, hD, Option.map_some, Option.some.injEq] at h1
       subst h1
       exact ⟨h2, h4 rfl⟩
-    · have := hoth x X' hxd h
+    · have := hoth x X' hxd hnm.2 h
       rw [hX] at this; cases this; rfl
   · intro hr he hp
     have : (repOf s d == X.rep) = false := by simpa [hrx] using hr
